@@ -541,6 +541,12 @@ func (dsc *dataStoreCommand) addFloat(keyName string, delta float64) (value floa
 		value = delta
 	}
 
+	if math.IsNaN(value) || math.IsInf(value, 0) {
+		// not a number a string value can hold: nothing is stored
+		valid = VALUE_OVERFLOW
+		return
+	}
+
 	bytes := []byte(strconv.FormatFloat(value, 'f', -1, 64))
 
 	newSk := dsc.ds.newStoreKeyUnlocked(keyName)
